@@ -1028,9 +1028,16 @@ def check_case(ctx, case, use_driver=True, gate=True, label="clean"):
             ctx.infra_errors.append(f"Lean eval disagrees with the Python oracle on {case_wire(case2)[:400]}")
             return dict(status="infra")
         for lf in mleaves:
-            _, lid, gv, gtab, fs, dv = lf
+            _, lid, gv, gtab, fs, dv, ts = lf
             model[int(lid)] = dict(gv=[int(x) for x in gv], gtab=[atom_to_num(x) for x in gtab],
-                                   fs=[atom_to_num(x) for x in fs], dv=[atom_to_num(x) for x in dv])
+                                   fs=[atom_to_num(x) for x in fs], dv=[atom_to_num(x) for x in dv],
+                                   ts=[atom_to_num(x) for x in ts])
+            # run-time echo of tape_sweep_eq_tree_backward for the concrete rules: the sweep over the
+            # hash-consed tape and the tree-shaped `backward` give the same marginal
+            if not all(same_num(a_, b_) for a_, b_ in zip(model[int(lid)]["ts"], model[int(lid)]["fs"])):
+                ctx.infra_errors.append(f"Lean tape sweep disagrees with tree-shaped backward on {case_wire(case2)[:400]}")
+                return dict(status="infra")
+            ctx.count(f"{label}:lean-tape-sweep-eq-tree")
     # 4. adjoints
     worst = None
     for lid, key in keys.items():
@@ -1346,6 +1353,80 @@ def aliasing_block(ctx):
     return n
 
 
+# ----------------------------------------------------------------------------------------------
+# Subs of Subs back to the original names (outside the AST: built directly)
+# ----------------------------------------------------------------------------------------------
+
+ROUNDTRIP = ("KF-adjoint-roundtrip-identity",
+             "a renaming undone by a second Subs, x(i='k', j='l')(k='i', l='j'), evaluates to the very same "
+             "hash-consed tensor as the leaf x: AdjointTape maps that eager value to the outer Subs and keys "
+             "adjoint_values by it, so the leaf x gets adjoint 0 and the outer Subs twice its adjoint")
+
+
+def roundtrip_stream(ctx, n):
+    """root = sum (x(ren)(ren^-1) (*) y): the adjoint of x must be y (and that of y must be x)."""
+    rng = ctx.rng
+    found = None
+    ok = 0
+    for _ in range(n):
+        sr = rng.choice(["add-mul", "logaddexp-add"])
+        sum_op, prod_op = (ops.add, ops.mul) if sr == "add-mul" else (ops.logaddexp, ops.add)
+        nax = rng.choice([1, 2, 2, 3])
+        names = rng.sample(GNAMES, nax)
+        sizes = [rng.choice([1, 2, 3]) for _ in names]
+        ren = rng.sample(names, rng.randint(1, nax))            # the axes that make the round trip
+        xd = gen_data(rng, tuple(sizes), nonzero=True)
+        yd = gen_data(rng, tuple(sizes), nonzero=True)
+        inputs = OrderedDict((nm, Bint[sz_]) for nm, sz_ in zip(names, sizes))
+        x = Tensor(to_impl_data(xd, sr), inputs)
+        y = Tensor(to_impl_data(yd, sr), inputs)
+        keep_free = rng.random() < 0.3
+        try:
+            with reflect:
+                inner = x(**{nm: nm + "_r" for nm in ren})
+                outer = inner(**{nm + "_r": nm for nm in ren})
+                e = prod_op(outer, y)
+                if not keep_free:
+                    e = e.reduce(sum_op)
+            with np.errstate(all="ignore"):
+                fwd, bwd = forward_backward(sum_op, prod_op, e)
+            gx, gy = bwd[x], bwd[y]
+        except (AssertionError, ValueError, NotImplementedError, KeyError, TypeError) as ex:
+            ctx.count(f"roundtrip:declined:{type(ex).__name__}")
+            continue
+        order = [(GNAMES.index(nm), sz_) for nm, sz_ in zip(names, sizes)]
+        bad = None
+        for lbl, g, want in (("x", gx, yd), ("y", gy, xd)):
+            try:
+                t = lin_table(g, order, sr)
+            except (KeyError, ValueError) as ex:
+                bad = (lbl, str(ex), None)
+                break
+            if t is None or not np.allclose(t, want, rtol=1e-9, atol=0):
+                bad = (lbl, None if t is None else np.asarray(t).tolist(), np.asarray(want).tolist())
+                break
+        ctx.count("roundtrip:" + ("wrong" if bad else "ok"))
+        if bad and found is None:
+            found = dict(axes=list(zip(names, sizes)), renamed=ren, sr=sr, leaf=bad[0], funsor=bad[1], derivative=bad[2],
+                         x=xd.tolist(), y=yd.tolist(), reduced=not keep_free)
+        ok += not bad
+    fid, what = ROUNDTRIP
+    if ctx.is_open(fid):
+        ctx.known(fid, reproduced=found is not None, what=what + (f"  [example: {found}]" if found else ""))
+    elif found is not None:
+        listed = any(f.get("id") == fid for f in ctx.findings)
+        if listed:      # listed but not open (fixed): a reproduction is a violation
+            ctx.fail("input", "C11.roundtrip-adjoint", witness=found, expected=str(found["derivative"]), got=str(found["funsor"]))
+        else:
+            ctx.extra.setdefault("unlisted_findings", []).append(dict(id=fid, reproduced=True, what=what, example=found))
+            ctx.count(f"unlisted-finding:{fid}:reproduced")
+            print(f"NOTE: property=C11 unlisted finding candidate {fid} reproduced: {what}")
+    else:
+        for _ in range(ok):
+            ctx.case()
+    return found
+
+
 def correspond(ctx):
     ctx.rule = ("random sum-product expressions: 1-5 leaf occurrences (leaves may repeat) over 4 variables of sizes 1-3, "
                 "leaves read directly or through Subs (renaming / Slice / Number / injective index Tensor, private or "
@@ -1386,6 +1467,7 @@ def correspond(ctx):
     m = 40 if ctx.tier == "quick" else 300
     for stream in FINDINGS:
         dedicated(ctx, stream, m)
+    roundtrip_stream(ctx, m)
     ctx.assumptions.append("float64 arithmetic on small integers / dyadic rationals is exact; the log semiring, and (add,mul) terms containing a product-reduce (safediv = multiplication by a rounded reciprocal), are compared in linear space with rtol 1e-9; magnitudes beyond 2**50 with rtol 1e-12")
     ctx.assumptions.append("with apply_optimizer the leaves are the tensors of the optimizer's output (its unfold pass evaluates Subs(Tensor) eagerly, outside the tape); the output is re-read into the model's syntax modulo __BOUND suffixes exactly as AdjointTape.adjoint un-mangles names")
     ctx.assumptions.append("adjoint_sound covers every node kind of the model (direct / Subs / Cat leaves, ⊕, ⊗, sum- and product-reduce); the proved sweep is tree-shaped — the tape's DAG sharing and its keying of adjoint_values by un-mangled eager values are exercised by correspondence only (aliasing block; dedicated streams tape-key-collision, binder-free-clash, opt-rebinding)")
